@@ -279,6 +279,8 @@ def run(tier):
 
     rejections = rejections + ref_rejections
     dc.finish_validation(ck)
+    with open(os.path.join(d, f"drift_{tier}.json"), "w") as f:
+        json.dump(ck.drift, f, indent=1)
     ck.cov["traces_validated_against_impl"] = len(outcomes) + accepted
     ck.cov["evaluations"] = len(outcomes)
     ck.cov["distinct_nontrivial"] = len({json.dumps([(op["dir"], op["msg"], op["ord"], op["kind"], op.get("arg")) for op in o["ops"] if op["fired"]])
